@@ -55,6 +55,14 @@ def _where(o, shape: List[Optional[str]]) -> Optional[List[str]]:
     return got
 
 
+def uid_tok(u) -> List[str]:
+    """a folder's uuid as the model's identity token: `-` when there is none, else a number derived from it (same uuid, same number)"""
+    if u is None:
+        return ["-"]
+    h = "".join(ch for ch in str(u) if ch in "0123456789abcdefABCDEF")[:12]
+    return ["+", str(int(h, 16) if h else sum(map(ord, str(u))))]
+
+
 def thr_tokens(o, prefix: str) -> List[str]:
     return [str(getattr(o, f"low_{prefix}_threshold")), str(getattr(o, f"med_{prefix}_threshold")),
             str(getattr(o, f"high_{prefix}_threshold"))]
@@ -98,7 +106,7 @@ def obj_tokens(o, top: bool = True, fresh: bool = False) -> List[str]:
                 + thr_tokens(o, "file_access"))
     if n == "FolderObservation":
         return (["folder"] * top + opt(_where(o, ["file_system", "folders", None])) + [B(o.file_system_requires_scan), str(o.cached_obs["health_status"])]
-                + many([obj_tokens(f, False) for f in o.files]))
+                + uid_tok(getattr(o, "_cached_uuid", None)) + many([obj_tokens(f, False) for f in o.files]))
     if n == "NICObservation":
         w = _where(o, ["NICs", None])
         mt = o.monitored_traffic or {}
@@ -158,6 +166,7 @@ def _fresh_tokens(o, top: bool) -> List[str]:
     if n == "FolderObservation":
         c = copy.copy(o)
         c.cached_obs = {"health_status": 0}
+        c._cached_uuid = None
         c.files = list(o.files)
         return obj_tokens(c, top)
     if n == "NICObservation":
@@ -521,7 +530,7 @@ def state_tokens(state: dict) -> Tuple[List[str], List[Tuple[float, float]]]:
         folders = []
         for fk, fv in fs.get("folders", {}).items():
             files = [[T(k), str(v["health_status"]), str(v["visible_status"]), str(v["num_access"])] for k, v in fv.get("files", {}).items()]
-            folders.append([T(fk), str(fv["health_status"]), str(fv["visible_status"]), B(fv["scanned_this_step"])] + many(files))
+            folders.append([T(fk), str(fv["health_status"]), str(fv["visible_status"]), B(fv["scanned_this_step"])] + uid_tok(fv.get("uuid")) + many(files))
         nics = []
         for num, nv in ns.get("NICs", {}).items():
             tk, pr = nic_state_tokens(int(num), nv)
@@ -676,6 +685,9 @@ def gen_thresholds(rng: Rng) -> dict:
             lo = rng.range(-2, 4)
             me = lo + rng.range(1, 5)
             hi = me + rng.range(1, 6)
+            if rng.chance(1, 8):
+                # not strictly ascending: `_validate_thresholds` must refuse it wherever a component of this kind is constructed with it
+                lo, me, hi = rng.choice([(lo, lo, hi), (lo, me, me), (me, lo, hi), (lo, hi, me), (hi, me, lo), (lo, lo, lo)])
             out[key] = {"low": lo, "medium": me, "high": hi}
     return out
 
@@ -764,6 +776,8 @@ def gen_state(rng: Rng, ev, mon_protos: List[str], mon_ports: List[int], acl_ips
                 continue
             folders[f] = {"health_status": rng.choice(ev["FileSystemItemHealthStatus"]), "visible_status": rng.choice(ev["FileSystemItemHealthStatus"]),
                           "scanned_this_step": rng.chance(1, 3),
+                          # which folder OBJECT it is: mostly the same one, now and then another under the same name, sometimes no uuid at all
+                          **({} if rng.chance(1, 5) else {"uuid": rng.choice(["a1", "a1", "a1", "b2"])}),
                           "files": {x: {"health_status": rng.choice(ev["FileSystemItemHealthStatus"]), "visible_status": rng.choice(ev["FileSystemItemHealthStatus"]),
                                         "num_access": gen_count(rng)} for x in FILES[:2] if rng.chance(3, 4)}}
         ns["file_system"] = {"folders": folders, "num_file_creations": gen_count(rng, 3), "num_file_deletions": gen_count(rng, 3)}
@@ -1176,7 +1190,7 @@ def truth_tokens(sim) -> List[str]:
         def folder_row(f):
             def file_row(x):
                 return [T(x.name), str(x.health_status.value), str(x.visible_health_status.value), str(x.num_access)]
-            return ([T(f.name), str(f.health_status.value), str(f.visible_health_status.value), B(f._scanned_this_step)]
+            return ([T(f.name), str(f.health_status.value), str(f.visible_health_status.value), B(f._scanned_this_step)] + uid_tok(f.uuid)
                     + many([file_row(x) for x in f.files.values()]) + many([file_row(x) for x in f.deleted_files.values()]))
         fs = node.file_system
         row += many(svcs) + many(apps) + many([folder_row(f) for f in fs.folders.values()]) + many([folder_row(f) for f in fs.deleted_folders.values()])
